@@ -33,6 +33,13 @@ var verifFmtSeeds = []string{
 	"package p\n\ntempl k() {\n\t<a title=\"¶\">t</a> <a title='¶'>u</a>\n}\n",
 	// 10: else-if chains with branches that may be empty
 	"package p\n\ntempl l(a, b, c bool) {\n\tif a {\n§<i>A</i>§} else if b {\n§} else if c {\n§<i>C</i>§} else {\n§<i>D</i>§}\n}\n",
+	// 11: legacy call syntax inside a single-line element, followed on the same line by an expression
+	"package p\n\ntempl m(name string) {§<button>{! icon(\"save\") }§{ name }</button>§}\n",
+	// 12: script template whose body ends in white space before the closing brace (the function
+	// name is derived from a hash of the body)
+	"package p\n\nscript g(a string) {\n\talert(a);§}\n\ntempl n() {\n\t<button onclick={ g(\"x\") }>b</button>\n}\n",
+	// 13: attribute expression spanning several lines, closing brace on the last element's line
+	"package p\n\ntempl o(c bool) {§<div class={ \"a\",\n\t\ttempl.KV(\"b\", c) }>x</div>§<a onclick={ do(c,\n\t\t\t\"y\") }>z</a>§}\n",
 }
 
 // verifFill replaces the markers of a seed: gap g (in order) by gaps[g], text marker by text,
